@@ -140,6 +140,14 @@ def run(quiet=False, repo=None):
         return SStr(tuple(map(ord, s)))
     words = [b'', b'a', b'ab.c', b' a b  c ', b'\r\n.\r\n', b'a@b@C.d',
              b'x\ny\n.z', b'..', b'a\n.b\n.c', b'   ', b'A-b_C', b'\t x \n']
+    for w in words + [b'a\r\n', b'a\r\r\nb', b'\r', b'\n\r', b'x\ry',
+                      b'a\r\n\r\n', b'\x0bq\x0c', b'a\x1cb']:
+        for keep in (False, True):
+            if list(lb(w).splitlines(keep)) != w.splitlines(keep):
+                fail('bytes.splitlines %r' % w)
+            t = w.decode('latin-1') + '\u2028z\x85'
+            if list(ls(t).splitlines(keep)) != t.splitlines(keep):
+                fail('str.splitlines %r' % t)
     for w in words:
         for sub in (b'.', b'\n.', b'@', b' ', b'ab', b''):
             for name in ('find', 'rfind', 'count', 'startswith', 'endswith'):
